@@ -199,6 +199,8 @@ class SimKernel(object):
         self.popen_calls = 0
         self.exec_fail_plan = exec_fail_plan or {}   # n -> errno
         self.exec_failures = 0
+        self.exec_fail_from = None   # (n, marker or None): every exec from
+        #                              the n-th on (of that watcher) fails
         # n-th send_signal() of the daemon to one of its workers -> EPERM
         # (a worker that changed its credentials; psutil: AccessDenied)
         self.signal_fail_plan = {}
@@ -759,6 +761,13 @@ class SimPopen(_InfoMixin):
         if k.spawn_cost:
             sim.advance(k.spawn_cost)
         err = k.exec_fail_plan.get(n)
+        if err is None and k.exec_fail_from is not None and \
+                n >= k.exec_fail_from[0] and \
+                (k.exec_fail_from[1] is None or
+                 k.exec_fail_from[1] in ' '.join(map(str, args))
+                 if isinstance(args, (list, tuple)) else True):
+            # a command that cannot be executed (for good): ENOENT
+            err = 2
         if err is not None:
             k.exec_failures += 1
             sim.rec('execfail', n, err)
